@@ -113,7 +113,12 @@ def tucker_als(  # noqa: PLR0912, PLR0913, PLR0915
                 f"Init needs to be of length tensor.ndim (which was {N}) but only got "
                 f"length {len(init)}."
             )
-        for n in dimorder[1::]:
+        # Every factor of the guess is checked (the first mode of dimorder is
+        # recomputed before it is used, but it is part of the returned guess)
+        for n in dimorder:
+            if n == dimorder[0] and Uinit[n] is None:
+                # (placeholder left by the generated guesses)
+                continue
             correct_shape = (input_tensor.shape[n], rank[n])
             if Uinit[n].shape != correct_shape:
                 raise ValueError(
